@@ -253,6 +253,15 @@ void gen_history(Rng &r, const Profile &pf, Plan &plan) {
             size_t ni = r.below(customs.size());
             frames.push_back(make_param_step(r, pf, customs[gi].first, customs[ni].second, true));
         }
+        if (r.chance(1, 10)) {
+            Step e; e.op = OP_PARAM_EDIT;
+            int64_t g = static_cast<int64_t>(r.below(16));
+            int64_t q = static_cast<int64_t>(r.below(16));
+            int64_t k = static_cast<int64_t>(r.below(3));
+            e.i = {g, q, k};
+            e.s.push_back(gen_text(r, gen_desc_len(r, pf.max_desc)));
+            frames.push_back(e);
+        }
         if (r.chance(1, 25)) { Step s3; s3.op = OP_SET_RATE; s3.i = {static_cast<int64_t>(r.below(2)), static_cast<int64_t>(RATES[r.below(8)])}; frames.push_back(s3); }
     }
     // order
